@@ -130,7 +130,10 @@ impl<S: Shape> MAnim<S> {
         match self.total() {
             Some(total) if total.is_finite() => {
                 let t = self.t.as_secs_f32();
-                (t as f64 - total).abs() <= 2.0 * ulp32(total as f32) as f64 && (t as f64 != total || (total as f32) as f64 != total)
+                // landing exactly on the total demands the exact answer only where the f32 arithmetic of
+                // `delay + cycle x (repeats+1)` is itself exact (e.g. cycle x 3 may round, and the reported
+                // total is then one ulp off the exact one)
+                (t as f64 - total).abs() <= 2.0 * ulp32(total as f32) as f64 && (t as f64 != total || !self.spec.total_is_exact_in_f32(self.state))
             }
             _ => false,
         }
